@@ -239,7 +239,7 @@ def eval_store(ctx, cases, results, f0, name="cases_store"):
     defs = "Definition cases : list tcase := [\n%s\n].\n" % ";\n".join(
         coq_case(c, r, f0) for c, r in zip(cases, results))
     res = coq.run_cases(ctx, name, PRE, defs, [
-        ("mismatch", "bad_indices agrees cases 0"),
+        ("mismatch", "bad_indices (fun tc => agrees tc && agrees_f tc) cases 0"),
         ("violations", "bad_indices ok_case cases 0"),
         ("dark", "bad_indices (fun tc => negb (is_dark (tc_state tc))) cases 0"),
     ])
@@ -438,7 +438,7 @@ def store_verdict(ctx, cases, results, res, f0):
         i = res["mismatch"][0]
         ctx.violation("model and implementation disagree on the shm/recorder protocol (%d cases); the property "
                       "checker accepts the implementation's files" % len(res["mismatch"]),
-                      {"line": "store", "correspondence": "C04.Model (pstep/rstep/wstep/finish) vs libmcount/record.c + "
+                      {"line": "store", "correspondence": "C04.Model (pstep/rstep/wstep/finish; abstract and faithful machine) vs libmcount/record.c + "
                        "cmds/record.c", "first_disagreement": case_json(cases[i], results[i]),
                        "model_expects(shl, flags, wl, file)": model_obs(ctx, cases[i], results[i], f0)}, False)
     ctx.extra["store_disagreements"] = len(res["mismatch"])
@@ -1445,9 +1445,6 @@ def common_meta(ctx):
         "shm allocation never fails and no record is lost (C03 covers LOST); no filters/triggers besides argument "
         "specs, -N functions and the finish / signal triggers (C05); one thread per data file in the model (threads are "
         "exercised end to end only)",
-        "after the message pipe was closed, a thread that moves on to a buffer the recorder never hears of is abstracted "
-        "to a `dark` state: its later stores are not modelled (the tie checks on the real code that they do not reach "
-        "the data file)",
         "a record fits into an empty buffer (the code does not re-check after switching buffers)",
         "stores become visible to the recorder in program order (x86-TSO; the recorder reads after the tracee died)",
         "the kernel delivers POLLHUP / SIGCHLD and /proc/<tid>/stat eventually shows every dead task (oracle `dead`)",
